@@ -544,6 +544,16 @@ CORNER_EXPRS += [f"{callee}({', '.join(args)})"
                  for args in (["*a", f"{kwname}=1"], ["1", "*a", f"{kwname}=2", "**b"], [f"{kwname}=1", "**b"],
                               ["b=1", f"{kwname}=2"], ["*a", "b=1", f"{kwname}=2"], ["1", f"{kwname}=2", "*a"])]
 
+# names the generated code uses itself, literals at interpreter limits, constants that cannot be
+# built while folding
+CORNER_EXPRS += ["f(_loop_vars=1)", "f(_block_vars=1)", "f(1, _loop_vars=x, **k)", "x|f(_loop_vars=1)",
+                 "x is t(_block_vars=1)", "f(environment=1)", "f(context=1)", "f(missing=1)", "f(resolve=1)",
+                 "f(undefined=1)", "f(concat=1)", "f(l_0_x=1)", "f(t_1=1)", "f(self=1)", "f(__self=1)",
+                 "9" * 4400, "1" + "0" * 5000, "-" + "9" * 4301, "0x" + "f" * 5000, "0b" + "1" * 20000,
+                 "1_" * 3000 + "1", "1." + "0" * 5000, "9" * 4400 + ".5", "1e" + "9" * 400,
+                 "[] == {[]: 1}", "{[]: 1}|length", "1 if {[]: 1}", "{{}: 1}.x", "{[1]: 2}[0]", "{[]: 1} ~ x",
+                 "{(1, []): 1}", "[{[]: 1}]", "x in {[]: 1}", "{1: 2, 1: 3}", "{x: 1, x: 2}", "{none: 1, (): 2}"]
+
 CORNER_TAGS = [
     "macro m(a, a)", "macro m(a, ª)", "macro m(__debug__)", "macro m(a=1, b)", "macro m(caller)",
     "macro m(caller=1, x)", "macro m(varargs)", "macro m(kwargs, varargs, caller)", "macro m(self)",
@@ -656,6 +666,23 @@ def corner_cases(dl):
         out.append(("expr-in-tag", tr("{% if " + e + " %}a{% endif %}")))
         out.append(("expr-in-set", tr("{% set v = " + e + " %}")))
         out.append(("expr-in-arg", tr("{{ f(" + e + ") }}")))
+        out.append(("expr-in-loop", tr("{% for q in x %}{{ " + e + " }}{% endfor %}")))
+        out.append(("expr-in-block", tr("{% block b %}{{ " + e + " }}{% endblock %}")))
+        out.append(("expr-in-recursive-else", tr("{% for q in x %}{% for r in q recursive %}{% else %}{{ " + e + " }}"
+                                                 "{% endfor %}{% endfor %}")))
+    # loop controls in every position relative to (recursive) loops, else branches and functions
+    for kw in ("break", "continue"):
+        for outer in ("", "{% for o in x %}", "{% for o in x recursive %}"):
+            for rec in ("", " recursive"):
+                for where in ("body", "else", "macro-in-body", "call-in-body", "set-in-body", "filter-in-body"):
+                    inner = {"body": "{% " + kw + " %}{% else %}e", "else": "b{% else %}{% " + kw + " %}",
+                             "macro-in-body": "{% macro m() %}{% " + kw + " %}{% endmacro %}",
+                             "call-in-body": "{% call f() %}{% " + kw + " %}{% endcall %}",
+                             "set-in-body": "{% set s %}{% " + kw + " %}{% endset %}",
+                             "filter-in-body": "{% filter upper %}{% " + kw + " %}{% endfilter %}"}[where]
+                    out.append(("loopcontrol-position",
+                                tr(outer + "{% for i in y" + rec + " %}" + inner + "{% endfor %}"
+                                   + ("{% endfor %}" if outer else ""))))
     for t in CORNER_TAGS:
         out.append(("tag", tr("{% " + t + " %}")))
         first = t.split(" ", 1)[0].split("(")[0]
